@@ -223,6 +223,8 @@ package ratelimit
 //@   modifies external
 //@   ensures rates_ok: ratesOK(result)
 //@   ensures default_without_extractor: tl.extractRates == nil ==> result == tl.defaultRates
+//@   ensures {C03,C13,C14} rates_come_from_this_request_or_the_defaults: tl.extractRates != nil ==> calls(tl.extractRates.Extract) == 1 && callarg(tl.extractRates.Extract, 0, 0) == req && (result == tl.defaultRates || (callres(tl.extractRates.Extract, 0, 1) == nil && result == callres(tl.extractRates.Extract, 0, 0)))
+//@   ensures {C03,C13,C14} extractor_failure_means_defaults: tl.extractRates != nil && callres(tl.extractRates.Extract, 0, 1) != nil ==> result == tl.defaultRates
 
 //@ iface ratelimit.RateExtractor.Extract
 //@   params self r
@@ -258,6 +260,7 @@ package ratelimit
 //@   ensures too_big_gets_plain_error: (exists p int :: in(p, setOf(tl, source).buckets) && amount > setOf(tl, source).buckets[p].burst) ==> result != nil && !istype(result, "*MaxRateError")
 //@   ensures too_big_is_plain_error: result != nil && !istype(result, "*MaxRateError") ==> (exists p int :: in(p, setOf(tl, source).buckets) && amount > setOf(tl, source).buckets[p].burst)
 //@   ensures delay_error: calls(Consume) == 1 && callres(Consume, 0, 1) == nil && callres(Consume, 0, 0) > 0 ==> istype(result, "*MaxRateError") && asref(payload(result), "*MaxRateError").Delay == callres(Consume, 0, 0)
+//@   ensures {C09,C13} every_rejection_has_its_own_error_value: istype(result, "*MaxRateError") ==> fresh(payload(result))
 //@   ensures decision_is_the_buckets: (result == nil) <==> (calls(Consume) == 1 && callres(Consume, 0, 1) == nil && callres(Consume, 0, 0) <= 0)
 
 // ---- bridge lemmas (checked by the solvers; they connect the per-call contracts to the interval statement) ----
